@@ -177,5 +177,31 @@ func layoutGrid(only *layout) (lo layoutOut) {
 		}
 		cleanup()
 	}
+	if only == nil {
+		emptyElements(&lo)
+	}
 	return
+}
+
+// emptyElements: a filter list with an empty element in it (a trailing or doubled comma on the command line, an
+// empty entry in the configuration file). Whatever the empty element itself is taken to mean, the elements behind it -
+// the operator's and the built-in archive.org / archive-it.org, which Zeno appends last - stay in force.
+func emptyElements(lo *layoutOut) {
+	for _, f := range []Filter{
+		{ExHost: []string{"blocked.invalid", "", "out.example"}},
+		{ExStr: []string{"nomatch-string", "", "secret"}},
+		{ExHost: []string{""}},
+	} {
+		res := setupFiles(f, nil)
+		for _, u := range []string{"http://out.example/x.png", "http://web.archive.org/web/2020/x", "https://archive-it.org/home", "http://in.example/secret/z", "http://in.example/a/b?u=secret"} {
+			c := &Case{Pos: Position{"seed", "", 0}, Text: u, Filter: f}
+			r := runCase(c, res, false)
+			lo.Cases++
+			for _, b := range r.Bad {
+				p := strings.SplitN(b, "\t", 3)
+				lo.Failures = append(lo.Failures, &failure{Sig: "filter-list-with-an-empty-element:later-element-not-in-force", Why: p[0] + " (filter list with an empty element: " + f.Name() + ")", URL: p[1], Case: *c, Count: 1})
+			}
+		}
+		cleanup()
+	}
 }
